@@ -439,6 +439,8 @@ fn buf_resolve_bounds_small() {
     } else {
         assert!(rg.end - rg.start == (r - l) as usize);
     }
+    // the range never reaches beyond the data, empty rectangles included
+    assert!(rg.end <= s.data.len());
 }
 
 include!("gen/dispatch_buf.rs");
